@@ -11,7 +11,8 @@
 From Coq Require Import List NArith Bool Arith.
 From Verif.Common Require Import Cas.
 From Verif.C19 Require Import Model.
-From Verif.C22 Require Import Model RG Sys Witness Final Must Final2.
+From Verif.C22 Require Import Model RG Sys Witness Final Must Final2 Spec Meets Meets3.
+From Verif.C22 Require Final3.
 Import ListNotations.
 Open Scope N_scope.
 
@@ -103,12 +104,60 @@ Theorem c22_must_be_empty_release_never_rewrites_block : forall cf fx h o,
 Proof. exact must_release_never_rewrites. Qed.
 Print Assumptions c22_must_be_empty_release_never_rewrites_block.
 
-(* "A block that names host h has an affinity object (h, c)" is in the oracle for cases whose clients act for distinct
-   hosts; it is NOT a theorem here (see the report: it needs a third assertion "block c does not name h" threaded
-   through Prims.v/Proofs.v), and it is false under same-host concurrency: *)
+(* The converse direction (closed in the deepening round; Final3.v): for clients on pairwise distinct hosts, pinned and
+   repaired code, every interleaving with conflicts and crash/restart: a block whose Affinity field names host h has an
+   affinity object (h, c) in some state (pending, confirmed or pendingDeletion).  It is false under same-host
+   concurrency: *)
+Theorem c22_named_block_has_affinity : forall cf fx clients evs c b h,
+  NoDup (map fst clients) ->
+  blk_at (sy_store (sys_run cf fx (sys0 cf fx clients) evs)) c = Some b -> bk_aff b = Some h ->
+  aff_at (sy_store (sys_run cf fx (sys0 cf fx clients) evs)) h c <> None.
+Proof. exact Final3.named_block_has_affinity. Qed.
+Print Assumptions c22_named_block_has_affinity.
+
 Theorem c22_named_block_has_affinity_same_host_refuted :
   exists (cf : config) (fx : bool) (clients : list (N * list op22)) (evs : list event) (h c : N) (b : block),
     let s := sy_store (sys_run cf fx (sys0 cf fx clients) evs) in
     blk_at s c = Some b /\ bk_aff b = Some h /\ aff_at s h c = None.
 Proof. exact named_block_without_affinity_same_host. Qed.
 Print Assumptions c22_named_block_has_affinity_same_host_refuted.
+
+(* ------------------------------------------------------------------------------------------------------------
+   Both directions: whenever block c exists and SOME host holds a confirmed row for c, host h holds the confirmed row
+   if and only if the block's Affinity field is h (distinct hosts: pinned and repaired code; any hosts: repaired code). *)
+Theorem c22_confirmed_row_iff_block_affinity : forall cf fx clients evs c b h,
+  NoDup (map fst clients) ->
+  let s := sy_store (sys_run cf fx (sys0 cf fx clients) evs) in
+  blk_at s c = Some b -> (exists h', aff_at s h' c = Some AConfirmed) ->
+  (aff_at s h c = Some AConfirmed <-> bk_aff b = Some h).
+Proof. exact confirmed_row_iff_block_affinity. Qed.
+Print Assumptions c22_confirmed_row_iff_block_affinity.
+
+Theorem c22_confirmed_row_iff_block_affinity_same_host : forall cf clients evs c b h,
+  let s := sy_store (sys_run cf true (sys0 cf true clients) evs) in
+  blk_at s c = Some b -> (exists h', aff_at s h' c = Some AConfirmed) ->
+  (aff_at s h c = Some AConfirmed <-> bk_aff b = Some h).
+Proof. exact confirmed_row_iff_block_affinity_same_host. Qed.
+Print Assumptions c22_confirmed_row_iff_block_affinity_same_host.
+
+(* The oracle of Spec.v accepts every model run, state part: on the dump of EVERY reachable store the boolean checks
+   one_confirmed and confirmed_match that ok_trace applies to the implementation's datastore answer true.
+   (The change part, block_change_ok, is the boolean form of step_spec, proved as c22_release_only_if_empty; its
+   boolean transcription is not proved - see the report.) *)
+Theorem c22_model_meets_spec : forall cf fx clients evs,
+  NoDup (map fst clients) ->
+  state_ok false (store_dump (sy_store (sys_run cf fx (sys0 cf fx clients) evs))) = true.
+Proof. exact model_meets_spec. Qed.
+Print Assumptions c22_model_meets_spec.
+
+Theorem c22_model_meets_spec_same_host : forall cf clients evs,
+  state_ok false (store_dump (sy_store (sys_run cf true (sys0 cf true clients) evs))) = true.
+Proof. exact model_meets_spec_same_host. Qed.
+Print Assumptions c22_model_meets_spec_same_host.
+
+(* ... and with the clause named_has_affinity (the flag the oracle uses for cases whose clients act for distinct hosts) *)
+Theorem c22_model_meets_spec_full : forall cf fx clients evs,
+  NoDup (map fst clients) ->
+  state_ok true (store_dump (sy_store (sys_run cf fx (sys0 cf fx clients) evs))) = true.
+Proof. exact model_meets_spec_full. Qed.
+Print Assumptions c22_model_meets_spec_full.
